@@ -10,6 +10,7 @@ TITLE = "internal policy accepts only consistent signatures"
 
 def run(prog, chk):
     algorithm_id_narrowing(prog, chk)
+    shape_table(prog, chk)
     _run(prog, chk)
 
 
@@ -85,3 +86,57 @@ def algorithm_id_narrowing(prog, chk):
                    loc=fn.loc(fn.elem_line(b, i)), fn=fn, path=None if w is None else path_lines(fn, w))
     if n < 5:
         raise AnalysisBroken("only %d narrowing conversions of parsed 64-bit integers found" % n)
+
+
+def shape_table(prog, chk):
+    """KSI_AggregationHashChain_calculateShape (what INT-10 compares the chain index with) over chain lengths around the width of the
+    shape value: the shape is the 1-padded direction word, so n links need n + 1 bits; with 64-bit arithmetic every chain of up to 63
+    links must give exactly 1 << n | directions, and no longer chain may give a value at all (the pad bit, and then the direction of the
+    last link, would be shifted out and an index that does not describe the links would compare equal)."""
+    from ksirules.interp import TOP, Interp, Ptr, list_overrides, succeed_model
+    from ksirules.model import strip
+    chk.rule("C01.shape", "chain shape: exact 1-padded direction word up to 63 links, no value beyond", floor=20)
+    fn = prog.fn("KSI_AggregationHashChain_calculateShape", "hashchain.c")
+    cp, sp = fn.params[0]["n"], fn.params[1]["n"]
+    deep = getattr(chk, "tier", "quick") == "thorough"
+    pats = {"left": lambda k: 1, "right": lambda k: 0, "alternating": lambda k: k & 1, "last-left": lambda k: 0, "first-left": lambda k: 0}
+    for n in (0, 1, 2, 3, 31, 32, 33, 62, 63, 64, 65, 66, 67, 200) + (tuple(range(4, 31)) if deep else ()):
+        for pname, pat in sorted(pats.items()):
+            if n == 0 and pname != "left":
+                continue
+            dirs = [pat(k) for k in range(n)]
+            if pname == "last-left" and n:
+                dirs[-1] = 1
+            if pname == "first-left" and n:
+                dirs[0] = 1
+            lists = {"LL": [Ptr("link%d" % k) for k in range(n)]}
+            length, element_at = list_overrides(lists)
+            inputs = {cp: Ptr("chn"), sp: Ptr("SHAPE"), "chn->chain": Ptr("LL")}
+            for k in range(n):
+                inputs["link%d->isLeft" % k] = dirs[k]
+
+            def is_left(I, p, node, args):
+                out = strip(node["a"][1])
+                I.write(p, I.canon(p, I.key_of(p, out["e"])), I.read(p, "%s->isLeft" % args[0].what) if isinstance(args[0], Ptr) else TOP)
+                return 0
+            ov = {"KSI_HashChainLinkList_length": length, "KSI_HashChainLinkList_elementAt": element_at, "KSI_HashChainLink_getIsLeft": is_left}
+            I = Interp(fn, inputs=inputs, call_model=succeed_model(prog, ov), on_unknown="stop", prog=prog, loop_bound=n + 4)
+            paths = I.run()
+            chk.paths += len(paths)
+            inst = "calculateShape[%d links,%s]" % (n, pname)
+            if len(paths) != 1 or paths[0].undetermined:
+                raise AnalysisBroken("calculateShape: evaluation not determined for %s: %s" % (inst, [q.undetermined[:1] for q in paths]))
+            q = paths[0]
+            st = [x[2] for x in q.stores("*" + sp)]
+            got = st[-1] if st else None
+            if n <= 63:
+                want = 1 << n
+                for k in range(n):            # link k is bit k of the index (the first link is the least significant bit)
+                    want |= dirs[k] << k
+                ok = q.ret == 0 and got == want
+                what = "expected status 0 and shape %#x; source: status %s, shape %s" % (want, q.ret, hex(got) if isinstance(got, int) else got)
+            else:
+                ok = q.ret not in (0, TOP) and got is None
+                what = ("%d links need %d bits: no shape may be reported; source: status %s, shape %s"
+                        % (n, n + 1, q.ret, hex(got) if isinstance(got, int) else got))
+            chk.ob("C01.shape", inst, ok, what, loc=fn.loc(), fn=fn, nontrivial=(n >= 63))
